@@ -8,6 +8,9 @@ package py
 type Enumerate struct {
 	Iterable Object
 	Start    Int
+	// the position of this object: an enumerate object is its own
+	// iterator, so every iter() of it shares the position
+	iterator *EnumerateIterator
 }
 
 // A python Enumerate iterator
@@ -59,10 +62,18 @@ func EnumerateNew(metatype *Type, args Tuple, kwargs StringDict) (Object, error)
 
 // Enumerate iterator
 func (e *Enumerate) M__iter__() (Object, error) {
-	return &EnumerateIterator{
-		Enumerate: *e,
-		Index:     e.Start,
-	}, nil
+	return e, nil
+}
+
+// Enumerate next: an enumerate object is an iterator itself
+func (e *Enumerate) M__next__() (Object, error) {
+	if e.iterator == nil {
+		e.iterator = &EnumerateIterator{
+			Enumerate: *e,
+			Index:     e.Start,
+		}
+	}
+	return e.iterator.M__next__()
 }
 
 // EnumerateIterator iterator
@@ -84,5 +95,5 @@ func (ei *EnumerateIterator) M__next__() (Object, error) {
 }
 
 // Check interface is satisfied
-var _ I__iter__ = (*Enumerate)(nil)
+var _ I_iterator = (*Enumerate)(nil)
 var _ I_iterator = (*EnumerateIterator)(nil)
